@@ -269,6 +269,34 @@ class E3Check(Check):
                                               "mix": self.mix,
                                               "objects": [A, B],
                                               "steps": steps})
+        # results that carry trajectories: merge two of them, mutate the
+        # merged result's trajectories by every mutator, inspect the inputs
+        for seed in seeds:
+            A = {"ctor": "xyzquat", "stamped": True, "n": 8,
+                 "data_seed": seed + 5, "profile": prof}
+            B = {"ctor": "se3", "stamped": True, "n": 8,
+                 "data_seed": seed + 5, "profile": dict(prof, scale=1.01)}
+            for M in SCHEMA_MUTATORS:
+                for tgt in ("mr.0", "mr.1"):
+                    for pre in (None, "positions_xyz", "poses_se3"):
+                        steps = [
+                            {"op": "compute", "uid": "c0", "what": "main_ape",
+                             "a": "o0", "b": "o1", "rel": "trans"},
+                            {"op": "compute", "uid": "c1", "what": "main_ape",
+                             "a": "o0", "b": "o1", "rel": "rot"},
+                            {"op": "compute", "uid": "mr",
+                             "what": "merge_results", "a": "o0",
+                             "results": ["c0", "c1"]},
+                        ]
+                        if pre:
+                            steps.append({"op": "read", "uid": "r0",
+                                          "obj": tgt, "view": pre})
+                        steps.append(mutator_step(M, tgt, "o0", "s1"))
+                        steps.append({"op": "read", "uid": "r1", "obj": "o0",
+                                      "view": "poses_se3"})
+                        cases.append({"kind": "schema_result",
+                                      "mix": self.mix, "objects": [A, B],
+                                      "steps": steps})
         return cases
 
     # ------------------------------------------------------------ shrinking
